@@ -193,7 +193,8 @@ def c18(ctx):
     ctx.traces += n
     ctx.nontrivial += n
     replay_cmd(ctx, binp, "replay-iseq", vec, "iseq", {"result", "panic", "oob"})
-    ctx.evaluations = sum_exec(ctx, ["iseq_exec"])
+    lib_traces(ctx, "sub", "eq,prefix,suffix", "api", 1500 if ctx.quick else 12000, "cmp", forces=("avx2",))
+    ctx.evaluations += sum_exec(ctx, ["iseq_exec"])
     return C.finish(ctx, "model_checking",
                     "TLC enumerates all pairs of binary sequences with lengths 0..MaxLen (every tail residue, every content) and all equal-length pairs up to LongLen "
                     "differing at <= 2 positions; the L-model of is_equal_raw is checked against sequence equality and the wrappers against starts_with/ends_with; "
@@ -287,16 +288,19 @@ def substring(ctx, parts, groups, classes, mm_bounds, lifts=None):
 
 def c03(ctx):
     substring(ctx, ["find"], "find", {"result", "panic"}, (5, 8) if ctx.quick else (6, 9))
+    lib_traces(ctx, "sub", "find", "api", 1200 if ctx.quick else 10000, "sub")
     return C.finish(ctx, "model_checking", RULE_SUB)
 
 
 def c04(ctx):
     substring(ctx, ["rfind"], "rfind", {"result", "panic"}, (5, 9) if ctx.quick else (6, 11))
+    lib_traces(ctx, "sub", "rfind", "api", 1200 if ctx.quick else 10000, "sub")
     return C.finish(ctx, "model_checking", RULE_SUB)
 
 
 def c08(ctx):
     substring(ctx, ["iter", "riter"], "iter,riter", {"result", "panic"}, (5, 7) if ctx.quick else (5, 9))
+    lib_traces(ctx, "sub", "fwd,rev", "api", 800 if ctx.quick else 8000, "sub")
     return C.finish(ctx, "model_checking", RULE_SUB)
 
 
@@ -361,6 +365,7 @@ def c12(ctx):
     ctx.nontrivial += sum(1 for v in C.read_vectors(vec) if v["find"] >= 0)
     mm_replay(ctx, binp, vec, "blocks", {"result", "panic"}, 5 if ctx.quick else 10, forces=("avx2",))
     replay_cmd(ctx, binp, "replay-pp", pvec, "pp", {"result", "panic"})
+    lib_traces(ctx, "sub", "find,rfind", "block", 1200 if ctx.quick else 10000, "blocks", forces=("avx2",))
     ctx.evaluations += sum_exec(ctx, ["mm_exec", "pp_scaled_exec", "pp_real_exec", "prefilter_exec"])
     return C.finish(ctx, "model_checking",
                     "MC_TwoWay / MC_SubBlocks1 / MC_PackedPair: TLC steps the loop-level models of Two-Way (forward/reverse, small/large period, every outer iteration), "
@@ -534,6 +539,24 @@ def c14(ctx):
                     "code: all vectors of the byte-search, iterator, substring (incl. cfg/objects groups), packed-pair, pair-selection and is_equal models are executed in a build "
                     "with debug assertions and overflow checks (for the crate under test too), every call under catch_unwind; scaled packed-pair vectors assert the documented "
                     "panic exactly below min_haystack_len")
+
+
+def lib_traces(ctx, family, kinds, group, count, tag, forces=("avx2", "sse2", "fallback")):
+    """I->S: drive the real code with the recorder's seeded random/structured inputs at real constants and let TLC
+    (Trace_Lib) validate every observation against the P-layer oracles."""
+    binp = C.build_harness()
+    for force in forces:
+        tr = os.path.join(ctx.dir, "lib_%s_%s.ndjson" % (tag, force))
+        rep, rc, err = C.run_harness(ctx, binp, ["record-lib", "--trace", tr, "--family", family, "--count", count, "--force", force, "--kinds", kinds, "--group", group], "rec_%s_%s" % (tag, force))
+        if rep is None:
+            raise ToolError("recorder failed rc=%s: %s" % (rc, err[-1500:]))
+        n, viol, summ = C.validate_trace(ctx, "Trace_Lib", tr, {}, "lib_%s_%s" % (tag, force), max_records=max(200, count // 12), par=12)
+        lib_trace_violations(ctx, tr, "recorded@" + force, viol)
+        for s_ in summ:
+            ctx.evaluations += s_[3]
+            ctx.add_counters({"trace_observations@%s" % force: s_[3], "trace_records@%s" % force: s_[1]})
+        if n:
+            ctx.sample({"from": "recorded trace (%s)" % force, "case": {k: v for k, v in C.record_at(tr, 1).items() if k in ("k", "n", "h")}})
 
 
 def c13(ctx):
@@ -712,17 +735,20 @@ def c09(ctx):
 
 def c01(ctx):
     byte_search(ctx, ["find"], {"result", "panic"})
+    lib_traces(ctx, "bytes", "first", "all", 1500 if ctx.quick else 12000, "bytes")
     return C.finish(ctx, "model_checking", RULE_BYTES)
 
 
 def c02(ctx):
     byte_search(ctx, ["rfind"], {"result", "panic"})
+    lib_traces(ctx, "bytes", "last", "all", 1500 if ctx.quick else 12000, "bytes")
     return C.finish(ctx, "model_checking", RULE_BYTES)
 
 
 def c07(ctx):
     byte_search(ctx, ["count"], {"result", "panic"})
     iter_part(ctx, {"count", "panic"})
+    lib_traces(ctx, "bytes", "count", "all", 1500 if ctx.quick else 12000, "bytes")
     return C.finish(ctx, "model_checking", RULE_BYTES)
 
 
